@@ -16,6 +16,6 @@ for d in $(ls /verif/proposed_fixes/$P-*.diff | sort); do
   sha=$(git log --format=%h -1)
   echo "applied $d as $sha"
   for f in /verif/known_findings.d/$P.txt /verif/known_findings.d/*.txt; do
-    [ -f "$f" ] && sed -i "s/proposed:$tag /$sha /g" "$f"
+    [ -f "$f" ] && sed -i "s/proposed:$tag /$sha /g; s#proposed_fixes/$(basename $base) #$sha #g" "$f"
   done
 done
